@@ -236,14 +236,14 @@ def _make_x_constraint_range(
 ) -> VersionConstraint:
     from poetry.core.constraints.version.version_range import VersionRange
 
-    if version.is_postrelease():
+    if version.is_devrelease():
+        _next = version.next_devrelease()
+    elif version.is_postrelease():
         _next = version.next_postrelease()
     elif version.is_stable():
         _next = version.next_stable()
     elif version.is_prerelease():
         _next = version.next_prerelease()
-    elif version.is_devrelease():
-        _next = version.next_devrelease()
     else:
         raise RuntimeError("version is neither stable, nor pre-release nor dev-release")
 
